@@ -401,6 +401,61 @@ pub fn run(rep: &'static Report) {
             rep.nontrivial(format!("nonce-{}-{:?}", cs, comp).as_bytes());
         }
     });
+    // the same clause under environment faults: every schedule with <= 2 interrupted reads/writes/flushes and <= 1 short
+    // read on top; whenever the encryptor still returns Ok, every record must open under exactly its own index
+    {
+        use crate::env::*;
+        let cs = 2u32;
+        let mut jobs = vec![];
+        for l in 0..=(2 * cs as usize + 1) {
+            jobs.push(l);
+        }
+        let fault_execs = std::sync::atomic::AtomicU64::new(0);
+        jobs.par_iter().for_each(|&l| {
+            let p = plaintext(seed ^ 0x73, l);
+            let sub = Subject::TinyEnc { key: hx(&key), aad: String::new(), cs };
+            let mut menu = Menu::shorts(ReadMode::Bounded, false).no_record();
+            menu.read_intr = true;
+            menu.write_intr = true;
+            menu.flush_intr = true;
+            let mut b = Budget::new(1, 0, 2);
+            b.shorts_total = 1;
+            let st = explore(&p, menu, b, &|e| run_env(&sub, e), &|env, res| {
+                if !res.is_ok() {
+                    return;
+                }
+                let (recs, rest) = r::split_records(&env.sink);
+                let case = || Case::new(&sub, &p, menu, env).json(json!({"what":"nonce-under-faults"}));
+                if !rest.is_empty() || recs.is_empty() {
+                    rep.violation("nonce/faults-unparseable", case(), format!("Ok returned under [{}] but the output is not a record sequence", describe(env)));
+                    return;
+                }
+                let n = recs.len();
+                for (i, rec) in recs.iter().enumerate() {
+                    let mut a = rec.flag_field.to_be_bytes().to_vec();
+                    a.extend_from_slice(&rec.len_field.to_be_bytes());
+                    let mut ct = rec.body.clone();
+                    ct.extend_from_slice(&rec.tag);
+                    for j in 0..=(n as u64) {
+                        let opens = r::aead_open(&key, &r::noise_nonce(j), &a, &ct).is_some();
+                        if opens != (j == i as u64) {
+                            rep.violation(
+                                "nonce/reuse-or-skip-under-faults",
+                                case(),
+                                format!("after schedule [{}] the encryptor returned Ok but record {} of {} {} under nonce {}", describe(env), i, n, if opens { "opens" } else { "does not open" }, j),
+                            );
+                            return;
+                        }
+                    }
+                }
+            })
+            .unwrap_or_else(|e| crate::report::machinery(&e));
+            fault_execs.fetch_add(st.executions, Ordering::Relaxed);
+        });
+        rep.eval(fault_execs.load(Ordering::Relaxed));
+        rep.extra("nonce_check_fault_schedules", json!(fault_execs.load(Ordering::Relaxed)));
+        rep.nontrivial(b"nonce-under-faults");
+    }
     // production chunk size with short reads (chunks shorter than 64 KiB)
     for sizes in [vec![1usize, 10, 100], vec![65536, 1, 65535], vec![100; 20]] {
         let l: usize = sizes.iter().sum::<usize>() + 7;
@@ -425,6 +480,12 @@ pub fn replay(rep: &'static Report, case: &Value) {
         "seam" => seam_check(rep, &Fixture::new(rep.seed)),
         "repetition" => {
             println!("  re-running C07 (the repetition part is deterministic in its verdict)");
+            run(rep);
+        }
+        _ if !case["env_case"].is_null() => {
+            let c = Case::from_json(case).unwrap();
+            let (env, res) = c.run();
+            println!("  observed: {} under [{}]; re-running the fault part", res.brief(), describe(&env));
             run(rep);
         }
         "nonce" => {
